@@ -13,9 +13,10 @@
    and the obligations (a) say, by computation, exactly which sub-families qualify.
    The same definitions are extracted (coq/extract/Ex_conc.v): the check runs [accept_conc] and [prop_c02_b] on the traces
    recorded from the real library. *)
-From Coq Require Import List Arith.
+From Coq Require Import List Arith Permutation.
 Import ListNotations.
-Require Import QtlVerif.ConcDefs QtlVerif.ConcProofs QtlVerif.SrcConc.
+Require Import QtlVerif.ConcDefs QtlVerif.ConcProofs QtlVerif.ConcResetDefs QtlVerif.ConcResetProofs
+               QtlVerif.ConcSigDefs QtlVerif.ConcSigProofs QtlVerif.SrcConc.
 
 (* ------------------------------------------------------------------------------------------------------------------
    (a) what the translated source satisfies *)
@@ -234,4 +235,179 @@ Example C02_nonvacuous_src_mixed :
   let s := run skf quota s0 (flat_map (fun _ => [2; 0; 0; 1; 2; 1; 1; 0; 2; 2]) (seq 0 40)) in
   finishedb 3 quota s = true /\ accept_conc quota 3 (evs s) = true /\ length (log s) = 5 /\
   log s = serial_log (acq_of M (acq s)).
+Proof. vm_compute. repeat split; reflexivity. Qed.
+
+(* ==================================================================================================================
+   (e) THE ASYNCHRONOUS -> SYNCHRONOUS TRANSITION: resetOwnThread() while other threads keep logging (ConcResetDefs.v).
+   The pipeline starts in its own thread (one worker, which takes no lock); producers post under the handler mutex M or,
+   once m_worker is cleared, run the pipeline themselves — from that moment the logger is synchronous again and in scope.
+   The theorems hold for EVERY reset program with [reset_ok] (drain first; quit and clear, in either order, in the critical
+   section in which the drain loop saw "nothing pending"), any number of producers, any quota, any schedule. *)
+Theorem C02_src_reset_ok : reset_ok src_reset_prog = true.
+Proof. vm_compute. reflexivity. Qed.
+Print Assumptions C02_src_reset_ok.
+
+Section ResetFamily.
+Variable prog : list rinstr.
+Variable quota : nat -> nat.
+Variable n : nat.
+Hypothesis Hok : reset_ok prog = true.
+Hypothesis Hn : threads_below n quota.
+
+(* the worker thread and a producer that runs the pipeline itself (or two such producers) are never inside at the same moment *)
+Theorem C02_reset_mutual_exclusion : forall sched x y,
+  rinside (rrun prog quota rs0 sched) x = true -> rinside (rrun prog quota rs0 sched) y = true -> x = y.
+Proof. exact (fun sched x y => reset_mutual_exclusion prog quota n Hok Hn _ x y (ex_intro _ sched eq_refl)). Qed.
+
+(* no posted message is left behind in the queue of a stopped event loop (nothing is lost by the transition) *)
+Theorem C02_reset_no_stranded_message : forall sched, stranded (rrun prog quota rs0 sched) = false.
+Proof. exact (fun sched => reset_no_stranded prog quota n Hok Hn _ (ex_intro _ sched eq_refl)). Qed.
+
+(* sequence numbers are consecutive in delivery order — at every moment of every run, across the transition *)
+Theorem C02_reset_seq_consecutive : forall sched, let s := rrun prog quota rs0 sched in
+  map e_seq (r_log s) = seq 0 (length (r_log s)).
+Proof. exact (reset_seq_consecutive prog quota n Hok Hn). Qed.
+
+(* exactly once and in each thread's own order: queued messages first (worker), the later ones synchronously *)
+Theorem C02_reset_exactly_once_in_order : forall sched, let s := rrun prog quota rs0 sched in rfinished n quota s = true ->
+  forall t, map e_idx (of_thread t (r_log s)) = seq 0 (quota t).
+Proof. exact (reset_exactly_once_in_order prog quota n Hok Hn). Qed.
+
+(* trace form of mutual exclusion: every entry is followed at once by the delivery of the same message *)
+Theorem C02_reset_no_overlap_trace : forall sched, let s := rrun prog quota rs0 sched in rfinished n quota s = true ->
+  r_evs s = paired (r_log s).
+Proof. exact (reset_no_overlap_trace prog quota n Hok Hn). Qed.
+
+(* tie to the recorded traces (scenario `resetwhile`): the SAME acceptor takes every trace of this model *)
+Theorem C02_reset_model_traces_accepted : forall sched, let s := rrun prog quota rs0 sched in
+  ((exists a, arun quota n a0 (r_evs s) = Some a) /\ r_log s = delivs (r_evs s) /\ r_count s = length (r_log s)) /\
+  (rfinished n quota s = true -> accept_conc quota n (r_evs s) = true).
+Proof.
+  exact (fun sched => conj (reset_trace_accepted_prefix prog quota n Hok Hn _ (ex_intro _ sched eq_refl))
+                           (reset_complete_trace_accepted prog quota n Hok Hn _ (ex_intro _ sched eq_refl))).
+Qed.
+End ResetFamily.
+Print Assumptions C02_reset_mutual_exclusion.
+Print Assumptions C02_reset_no_stranded_message.
+Print Assumptions C02_reset_seq_consecutive.
+Print Assumptions C02_reset_exactly_once_in_order.
+Print Assumptions C02_reset_no_overlap_trace.
+Print Assumptions C02_reset_model_traces_accepted.
+
+(* instances for the resetOwnThread() of today *)
+Theorem C02_src_reset_mutual_exclusion : forall quota n, threads_below n quota -> forall sched x y,
+  rinside (rrun src_reset_prog quota rs0 sched) x = true -> rinside (rrun src_reset_prog quota rs0 sched) y = true -> x = y.
+Proof. exact (fun quota n => C02_reset_mutual_exclusion src_reset_prog quota n C02_src_reset_ok). Qed.
+Print Assumptions C02_src_reset_mutual_exclusion.
+Theorem C02_src_reset_exactly_once_in_order : forall quota n, threads_below n quota -> forall sched,
+  let s := rrun src_reset_prog quota rs0 sched in rfinished n quota s = true ->
+  forall t, map e_idx (of_thread t (r_log s)) = seq 0 (quota t).
+Proof. exact (fun quota n => C02_reset_exactly_once_in_order src_reset_prog quota n C02_src_reset_ok). Qed.
+Print Assumptions C02_src_reset_exactly_once_in_order.
+
+(* REFUTED for "stop feeding the worker first": with m_worker cleared BEFORE the drain loop a producer that gets the mutex
+   during one of the sleep windows runs the pipeline itself while the worker is still inside it — overlap, the producer's
+   message 2 delivered before its queued messages 0 and 1, and a lost update of the sequence counter (number 0 twice) *)
+Theorem C02_reset_clear_before_drain_refuted :
+  reset_ok [RClear; RDrain; RQuit] = false /\
+  (exists sched, let s := rrun [RClear; RDrain; RQuit] (fun t => if Nat.ltb t 2 then 3 else 0) rs0 sched in
+     rinside s AWorker = true /\ rinside s (AProd 0) = true) /\
+  (exists sched, let quota := fun t => if Nat.ltb t 2 then 3 else 0 in
+     let s := rrun [RClear; RDrain; RQuit] quota rs0 sched in
+     rfinished 2 quota s = true /\ map e_idx (of_thread 0 (r_log s)) = [2; 0; 1] /\
+     map e_seq (r_log s) = [0; 0; 1; 2; 3; 4] /\ accept_conc quota 2 (r_evs s) = false).
+Proof.
+  split; [reflexivity|]. split.
+  - exists [AProd 0; AProd 0; AProd 0; AProd 0; AWorker; AResetter; AResetter; AResetter; AProd 0; AProd 0].
+    vm_compute. split; reflexivity.
+  - exists ([AProd 0; AProd 0; AProd 0; AProd 0; AWorker; AResetter; AResetter; AResetter; AProd 0; AProd 0; AProd 0]
+            ++ repeat AWorker 5 ++ repeat AResetter 5 ++ repeat (AProd 1) 10).
+    vm_compute. repeat split; reflexivity.
+Qed.
+Print Assumptions C02_reset_clear_before_drain_refuted.
+
+(* non-vacuity: two producers (4 messages each) against today's resetOwnThread(): a backlog is posted, the reset starts
+   and sleeps twice while producers keep posting, the worker drains, the thread is stopped, m_worker cleared, and the last
+   messages run synchronously — the run completes, the trace is accepted, every message exactly once in order *)
+Example C02_reset_nonvacuous :
+  let quota := fun t => if Nat.ltb t 2 then 4 else 0 in
+  let sched := [AProd 0; AProd 0; AProd 0; AProd 0; AProd 1; AProd 1; AWorker; AResetter; AResetter; AProd 1; AProd 1;
+                AWorker; AWorker; AResetter; AResetter; AProd 0; AProd 0] ++ repeat AWorker 10 ++ repeat AResetter 6
+               ++ repeat (AProd 0) 3 ++ repeat (AProd 1) 3 ++ repeat (AProd 0) 3 ++ repeat (AProd 1) 3 in
+  let s := rrun [RDrain; RQuit; RClear] quota rs0 sched in
+  rfinished 2 quota s = true /\ r_r s = RDone /\ r_worker s = false /\ r_running s = false /\
+  accept_conc quota 2 (r_evs s) = true /\
+  r_log s = [(0, 0, 0); (0, 1, 1); (1, 0, 2); (1, 1, 3); (0, 2, 4); (0, 3, 5); (1, 2, 6); (1, 3, 7)].
+Proof. vm_compute. repeat split; reflexivity. Qed.
+
+(* ==================================================================================================================
+   (f) SIGNAL SINKS (sendToSignal / SignalSink, ConcSigDefs.v): what a receiver QObject connected the way the library
+   connects it (string-based AutoConnection) observes when N threads log concurrently.  [home] is the thread the receiver
+   lives in.  Source anchors first: *)
+Theorem C02_src_signal_sink_emits_in_send : src_signal_emits_in_send = true.
+Proof. vm_compute. reflexivity. Qed.
+Print Assumptions C02_src_signal_sink_emits_in_send.
+Theorem C02_src_signal_autoconnect : src_signal_autoconnect = true.
+Proof. vm_compute. reflexivity. Qed.
+Print Assumptions C02_src_signal_autoconnect.
+Theorem C02_src_signal_type_registered : src_signal_type_registered = true.
+Proof. vm_compute. reflexivity. Qed.
+Print Assumptions C02_src_signal_type_registered.
+
+(* every trace accepted by Qt's delivery rule: the signal sink emits every message exactly once in pipeline order ... *)
+Theorem C02_signal_emits_in_pipeline_order : forall home tr, accept_sig home tr = true -> sss tr = sxs tr.
+Proof. exact sig_emits_in_pipeline_order. Qed.
+Print Assumptions C02_signal_emits_in_pipeline_order.
+(* ... the receiver gets every message exactly once ... *)
+Theorem C02_signal_exactly_once : forall home tr, accept_sig home tr = true -> Permutation (sqs tr) (sxs tr).
+Proof. exact sig_exactly_once. Qed.
+Print Assumptions C02_signal_exactly_once.
+(* ... each producing thread's messages in the order that thread logged them ... *)
+Theorem C02_signal_per_thread_order : forall home tr, accept_sig home tr = true ->
+  forall t, of_thread t (sqs tr) = of_thread t (sxs tr).
+Proof. exact sig_per_thread. Qed.
+Print Assumptions C02_signal_per_thread_order.
+(* ... and, as long as the receiver's own thread does not log, in pipeline order: consecutive sequence numbers stay
+   consecutive in delivery order at the receiver *)
+Theorem C02_signal_foreign_threads_fifo : forall home tr, accept_sig home tr = true ->
+  emits_from home (sxs tr) = false -> sqs tr = sxs tr.
+Proof. exact sig_fifo. Qed.
+Print Assumptions C02_signal_foreign_threads_fifo.
+Theorem C02_signal_foreign_threads_seq_consecutive : forall home tr, accept_sig home tr = true ->
+  emits_from home (sxs tr) = false -> map e_seq (sxs tr) = seq 0 (length (sxs tr)) ->
+  map e_seq (sqs tr) = seq 0 (length (sqs tr)).
+Proof. exact sig_fifo_seq_consecutive. Qed.
+Print Assumptions C02_signal_foreign_threads_seq_consecutive.
+Theorem C02_signal_accept_implies_oracle : forall home tr, accept_sig home tr = true -> prop_sig_b home tr = true.
+Proof. exact sig_accept_implies_oracle. Qed.
+Print Assumptions C02_signal_accept_implies_oracle.
+(* the acceptor takes every trace of the generative model (threads enter / emit, the home thread pumps its queue) *)
+Theorem C02_signal_model_traces_accepted : forall home acts,
+  (srun home ss0 (snd (sgen home ss0 acts)) = Some (fst (sgen home ss0 acts))) /\
+  (s_quiet (fst (sgen home ss0 acts)) = true -> accept_sig home (snd (sgen home ss0 acts)) = true).
+Proof. exact (fun home acts => conj (proj1 (sgen_accepted home acts ss0 eq_refl)) (sgen_complete_accepted home acts)). Qed.
+Print Assumptions C02_signal_model_traces_accepted.
+
+(* OBSERVATION (the AutoConnection semantics, not a defect of the pipeline): when the receiver's own thread logs while
+   queued calls are pending, its message is delivered directly and overtakes them — the receiver does not see pipeline
+   order although the sink was handed the messages in order.  Thread 0 logs two messages, the home thread 1 logs one. *)
+Theorem C02_signal_home_thread_overtakes : exists acts,
+  let tr := snd (sgen 1 ss0 acts) in
+  accept_sig 1 tr = true /\ prop_sig_b 1 tr = true /\ sss tr = sxs tr /\
+  map e_seq (sxs tr) = [0; 1; 2] /\ map e_seq (sqs tr) = [2; 0; 1] /\ prop_sig_strict_b tr = false.
+Proof.
+  exists [AEnter (0, 0, 0); AEmit; AEnter (0, 1, 1); AEmit; AEnter (1, 0, 2); AEmit; APump; APump].
+  vm_compute. repeat split; reflexivity.
+Qed.
+Print Assumptions C02_signal_home_thread_overtakes.
+
+(* non-vacuity: two foreign threads, the home thread pumps in between (also between a delivery and its emission): accepted,
+   the receiver sees 0,1,2,3; a trace that loses a queued call, or delivers one twice, is rejected *)
+Example C02_signal_nonvacuous :
+  let tr := snd (sgen 2 ss0 [AEnter (0, 0, 0); AEmit; AEnter (1, 0, 1); APump; AEmit; AEnter (0, 1, 2); AEmit; APump; APump;
+                             AEnter (1, 1, 3); AEmit; APump]) in
+  accept_sig 2 tr = true /\ map e_seq (sqs tr) = [0; 1; 2; 3] /\
+  accept_sig 2 [SX (0, 0, 0); SS (0, 0, 0)] = false /\
+  accept_sig 2 [SX (0, 0, 0); SS (0, 0, 0); SQ (0, 0, 0); SQ (0, 0, 0)] = false /\
+  prop_sig_b 2 [SX (0, 0, 0); SS (0, 0, 0)] = false.
 Proof. vm_compute. repeat split; reflexivity. Qed.
